@@ -254,7 +254,7 @@ func (w *writeObjectCloser) Close() error {
 		ierr := d.Err("close " + w.b.label(w.path))
 		w.b.S.Fired(d.Fault)
 		if w.b.Hooks != nil && w.osName != "" {
-			w.b.Hooks.setCloseFault(w.osName, ierr)
+			w.b.Hooks.setCloseFault(w.osName, ierr, d.Salt%2 == 1)
 			return w.WriteObjectCloser.Close()
 		}
 		_ = w.WriteObjectCloser.Close()
@@ -298,6 +298,7 @@ type Hooks struct {
 	createdFin  string
 	writeFault  map[string]writeFault
 	closeFault  map[string]error
+	closeLossy  map[string]bool
 	renameFault map[string]*renameTrick
 	renameYield map[string]string
 }
@@ -323,6 +324,7 @@ func NewHooks(s *sched.Sim) *Hooks {
 		S:           s,
 		writeFault:  map[string]writeFault{},
 		closeFault:  map[string]error{},
+		closeLossy:  map[string]bool{},
 		renameFault: map[string]*renameTrick{},
 		renameYield: map[string]string{},
 		rawFinal:    map[string]string{},
@@ -371,10 +373,22 @@ func (h *Hooks) setWriteFault(name string, keep int, err error) {
 	h.mu.Unlock()
 }
 
-func (h *Hooks) setCloseFault(name string, err error) {
+// setCloseFault: the close of the file will report err. lossy: and the tail of what was written is
+// lost, as when the write-back a close waits for fails (ENOSPC on delayed allocation, EDQUOT, EIO on a
+// network file system) - the file keeps the first half of its bytes.
+func (h *Hooks) setCloseFault(name string, err error, lossy bool) {
 	h.mu.Lock()
 	h.closeFault[name] = err
+	if lossy {
+		h.closeLossy[name] = true
+	}
 	h.mu.Unlock()
+}
+
+func loseTail(name string) {
+	if fi, err := os.Lstat(name); err == nil && fi.Mode().IsRegular() && fi.Size() > 0 {
+		_ = os.Truncate(name, fi.Size()/2)
+	}
 }
 
 func (h *Hooks) setRenameFault(name string, vanish bool) {
@@ -488,6 +502,10 @@ func (h *Hooks) Fault(ctx context.Context, name string, arg string, err error) e
 		d := h.S.YieldCurrentAs("close", label)
 		if d.Fault == "close-err" {
 			h.S.Fired(d.Fault)
+			if d.Salt%2 == 1 {
+				loseTail(arg)
+				h.S.Probe("close-lost-tail")
+			}
 			return d.Err("close " + label)
 		}
 		if d.Fault == "rename-err" {
@@ -498,9 +516,15 @@ func (h *Hooks) Fault(ctx context.Context, name string, arg string, err error) e
 	}
 	h.mu.Lock()
 	ierr := h.closeFault[arg]
+	lossy := h.closeLossy[arg]
 	delete(h.closeFault, arg)
+	delete(h.closeLossy, arg)
 	h.mu.Unlock()
 	if ierr != nil && err == nil {
+		if lossy {
+			loseTail(arg)
+			h.S.Probe("close-lost-tail")
+		}
 		return ierr
 	}
 	return err
